@@ -527,7 +527,8 @@ class Scheduler:
                     self.polled_for = (cur[0][0], self.step_no_of_park.get(cur[0][0]))
             if default is None:
                 for i, c in enumerate(choices):
-                    if c[2] != ENV_KIND and c[3] not in YIELD_LABELS and c[3] != "1" and same_thread(c[0], self.last_lid):
+                    if c[2] != ENV_KIND and c[3] not in YIELD_LABELS and c[3] != "1" and \
+                            same_thread(c[0], self.last_lid, {q.lid for q in self.procs.values() if q.lid.endswith("/s")}):
                         default = i
                         break
             if default is None:
@@ -631,7 +632,7 @@ def lidkey(lid):
     return out
 
 
-def same_thread(lid, last):
+def same_thread(lid, last, script_lids=None):
     """A hand-over between a process and its direct child/parent (sh <-> vgate, sh <-> the redo it
     runs in the foreground) continues the same logical thread of control."""
     if last is None:
@@ -639,8 +640,16 @@ def same_thread(lid, last):
     a, b = lid.replace("/s", ""), last.replace("/s", "")
     if a == b:
         return True
-    return a.startswith(b + ".") and a.count(".") == b.count(".") + 1 or \
-        b.startswith(a + ".") and b.count(".") == a.count(".") + 1
+    if a.startswith(b + ".") and a.count(".") == b.count(".") + 1 or \
+            b.startswith(a + ".") and b.count(".") == a.count(".") + 1:
+        return True
+    # consecutive foreground commands of one script (redo-always; redo-ifchange x; redo-stamp ...) are siblings whose
+    # parent is the script's shell: the script does not pass a gate of its own between them, so the next command
+    # continues the thread of the one that has just ended
+    if script_lids is not None and "." in a and "." in b and a.rsplit(".", 1)[0] == b.rsplit(".", 1)[0] \
+            and (a.rsplit(".", 1)[0] + "/s") in script_lids:
+        return True
+    return False
 
 
 def normalise_detail(detail, procs):
